@@ -45,7 +45,7 @@ impl Property for C13 {
     }
     fn runs(&self, tier: Tier) -> u64 {
         match tier {
-            Tier::Quick => 800,
+            Tier::Quick => 2_400,
             Tier::Thorough => 80_000,
         }
     }
@@ -68,13 +68,14 @@ impl Property for C13 {
         ]
     }
     fn expected_probes(&self) -> Vec<&'static str> {
-        vec!["recorder_short_writes", "recorder_error", "recorder_write_zero", "load_same_emulator", "load_fresh_dirty", "locked_state", "sp_in_screen", "twin_continuation", "save_failed_cleanly", "iff1_differs_from_iff2_at_save", "save_retried_after_failure"]
+        vec!["recorder_short_writes", "recorder_error", "recorder_write_zero", "load_same_emulator", "load_fresh_dirty", "locked_state", "sp_in_screen", "twin_continuation", "save_failed_cleanly", "iff1_differs_from_iff2_at_save", "save_retried_after_failure", "cpu_halted_at_save"]
     }
 
     fn gen(&self, rng: &mut Rng, _tier: Tier, _idx: u64) -> Scenario {
         let mut sc = Scenario::new();
         sc.set("m128", rng.bool() as i64);
         sc.set("seed", (rng.next() >> 8) as i64);
+        sc.set("halted", rng.chance(1, 5) as i64);
         sc.set("sp_class", rng.range(0, 4));
         sc.set("steps", *rng.pick(&[0i64, 0, 1, 7, 300]));
         sc.set("rec_fault", *rng.pick(&[0i64, 0, 0, 1, 1, 2, 3]));
@@ -119,6 +120,21 @@ impl Property for C13 {
         }
         if s.port_7ffd & 0x20 != 0 {
             ctx.probe("locked_state");
+        }
+        // a halted CPU at save time: PC stands on a HALT opcode (0x8002; behind it JR back to it). The format
+        // has no HALT flag: the restored machine executes the HALT again, which is the same waiting state
+        let halted_at_save = sc.get("halted") != 0;
+        if halted_at_save {
+            ctx.probe("cpu_halted_at_save");
+            s.banks[2][2] = 0x76;
+            s.banks[2][3] = 0x18;
+            s.banks[2][4] = 0xFD;
+            s.cpu.pc = 0x8002;
+            s.cpu.halted = true;
+            // with interrupts disabled: otherwise the pending frame interrupt is taken before the HALT is
+            // re-executed after the load, which legitimately shifts the program by one wake-up
+            s.cpu.iff1 = false;
+            s.cpu.iff2 = false;
         }
         let cfg = MCfg { m128, ay: true, ..Default::default() };
         let mut e = new_emu(&cfg);
@@ -261,6 +277,8 @@ impl Property for C13 {
         let got = cpu_state(target);
         let mut exp = saved_cpu.clone();
         exp.iff1 = exp.iff2;
+        // SNA cannot say "halted": PC on the HALT opcode, not (yet) halted, is its representation
+        exp.halted = false;
         exp.memptr = got.memptr;
         exp.q = got.q;
         if let Some((name, a, b)) = got.diff(&exp, 0) {
